@@ -266,7 +266,7 @@ def rule_b(repo, chk):
             ok = isinstance(a0, ast.Constant)
         if key == (VALUE, 'CompiledValue._execute_function'):
             ok = 'builtins_module' in norm(cs.func)
-        n += ok
+        n += 1
         chk.ob('C13.b', ok, cs, 'call site `%s` of getattr_paths is triaged' % short(cs, 60), triaged.get(key, 'UNLISTED caller of the real getattr'))
     chk.floor('C13.b', n, 4, '(call sites of getattr_paths)')
     # CheckAttribute users: only fixed protocol names
@@ -355,7 +355,7 @@ def rule_c(repo, chk):
             what = 'Interpreter copies settings.allow_unsafe_interpreter_executions unmodified'
         else:
             ok, what = False, 'UNLISTED write to allow_unsafe_executions'
-        n += ok
+        n += 1
         chk.ob('C13.c', ok, w, '%s: `%s`' % (what, short(st, 70)))
     chk.floor('C13.c', n, 2, '(writes of the switch)')
     f = repo.find(VALUE, 'CompiledValue.py__simple_getitem__')
